@@ -265,6 +265,24 @@ func (e *Env) runMsg(validate func() error, handler func(ctx context.Context) er
 	return "res ok"
 }
 
+// runModuleMsg executes a message op: in `run` mode ValidateBasic + our MsgServer on a cached
+// context, in app mode as a signed tx in its own block (see app.go).
+func (e *Env) runModuleMsg(msg sdk.Msg, signer string, validate func() error, handler func(ctx context.Context) error) string {
+	if e.appMode {
+		if _, isParams := msg.(*types.MsgUpdateParams); isParams {
+			// the gov authority has no key: MsgUpdateParams always goes through the msg router
+			return e.appRoute(msg)
+		}
+		return e.appDeliver(msg, signer)
+	}
+	return e.runMsg(validate, handler)
+}
+
+func (e *Env) unsupportedInApp() (string, []string) {
+	e.rec.comment(unsupportedApp)
+	return "res err", nil
+}
+
 func (e *Env) badOp(err error) (string, []string) {
 	e.bad = true
 	e.rec.comment("bad op: %v", err)
@@ -288,10 +306,20 @@ func (e *Env) Exec(line string) string {
 	} else {
 		e.rec.beginOp(-1, nil)
 	}
-	e.ctx = e.ctx.WithEventManager(sdk.NewEventManager())
+	if e.appMode {
+		e.ctx = e.appCtx() // between blocks: uncached context on the committed state
+	} else {
+		e.ctx = e.ctx.WithEventManager(sdk.NewEventManager())
+	}
 
 	e.bad = false
 	res, rlines := e.dispatch(fields)
+	if e.appMode {
+		e.ctx = e.appCtx() // blocks may have been committed: re-read for the dump
+		if e.appBroken != "" {
+			e.rec.comment("app state unreliable until reset: %s", e.appBroken)
+		}
+	}
 	if isModuleOp && e.bad {
 		e.pendFault, e.pendHooks = savedFault, savedHooks
 	}
@@ -409,7 +437,7 @@ func (e *Env) dispatch(t []string) (string, []string) {
 		if err := p.done(); err != nil {
 			return e.badOp(err)
 		}
-		return e.runMsg(msg.ValidateBasic, func(ctx context.Context) error {
+		return e.runModuleMsg(msg, msg.Auctioneer, msg.ValidateBasic, func(ctx context.Context) error {
 			_, err := e.msgs.CreateFixedPriceAuction(ctx, msg)
 			return err
 		}), nil
@@ -429,7 +457,7 @@ func (e *Env) dispatch(t []string) (string, []string) {
 		if err := p.done(); err != nil {
 			return e.badOp(err)
 		}
-		return e.runMsg(msg.ValidateBasic, func(ctx context.Context) error {
+		return e.runModuleMsg(msg, msg.Auctioneer, msg.ValidateBasic, func(ctx context.Context) error {
 			_, err := e.msgs.CreateBatchAuction(ctx, msg)
 			return err
 		}), nil
@@ -441,7 +469,7 @@ func (e *Env) dispatch(t []string) (string, []string) {
 		if err := p.done(); err != nil {
 			return e.badOp(err)
 		}
-		return e.runMsg(msg.ValidateBasic, func(ctx context.Context) error {
+		return e.runModuleMsg(msg, msg.Auctioneer, msg.ValidateBasic, func(ctx context.Context) error {
 			_, err := e.msgs.CancelAuction(ctx, msg)
 			return err
 		}), nil
@@ -467,7 +495,7 @@ func (e *Env) dispatch(t []string) (string, []string) {
 		if err := p.done(); err != nil {
 			return e.badOp(err)
 		}
-		return e.runMsg(msg.ValidateBasic, func(ctx context.Context) error {
+		return e.runModuleMsg(msg, msg.Bidder, msg.ValidateBasic, func(ctx context.Context) error {
 			_, err := e.msgs.PlaceBid(ctx, msg)
 			return err
 		}), nil
@@ -482,7 +510,7 @@ func (e *Env) dispatch(t []string) (string, []string) {
 		if err := p.done(); err != nil {
 			return e.badOp(err)
 		}
-		return e.runMsg(msg.ValidateBasic, func(ctx context.Context) error {
+		return e.runModuleMsg(msg, msg.Bidder, msg.ValidateBasic, func(ctx context.Context) error {
 			_, err := e.msgs.ModifyBid(ctx, msg)
 			return err
 		}), nil
@@ -494,7 +522,7 @@ func (e *Env) dispatch(t []string) (string, []string) {
 		if err := p.done(); err != nil {
 			return e.badOp(err)
 		}
-		return e.runMsg(msg.ValidateBasic, func(ctx context.Context) error {
+		return e.runModuleMsg(msg, msg.AllowedBidder.Bidder, msg.ValidateBasic, func(ctx context.Context) error {
 			_, err := e.msgs.AddAllowedBidder(ctx, msg)
 			return err
 		}), nil
@@ -509,7 +537,7 @@ func (e *Env) dispatch(t []string) (string, []string) {
 			return e.badOp(err)
 		}
 		// MsgUpdateParams has no ValidateBasic.
-		return e.runMsg(nil, func(ctx context.Context) error {
+		return e.runModuleMsg(msg, msg.Authority, nil, func(ctx context.Context) error {
 			_, err := e.msgs.UpdateParams(ctx, msg)
 			return err
 		}), nil
@@ -547,6 +575,18 @@ func (e *Env) dispatch(t []string) (string, []string) {
 		if err := p.done(); err != nil {
 			return e.badOp(err)
 		}
+		if e.appMode {
+			e.blockTime = tm
+			_, err, panicked := e.appBlock(tm, nil)
+			switch {
+			case panicked:
+				return "res panic", nil
+			case err != nil:
+				e.rec.comment("FinalizeBlock error: %v", err)
+				return "res err", nil
+			}
+			return "res ok", nil
+		}
 		e.ctx = e.ctx.WithBlockTime(tm)
 		err, panicked := e.runCached(func(ctx sdk.Context) error { return e.k.BeginBlocker(ctx) })
 		switch {
@@ -561,6 +601,9 @@ func (e *Env) dispatch(t []string) (string, []string) {
 	case "genesis":
 		if err := p.done(); err != nil {
 			return e.badOp(err)
+		}
+		if e.appMode {
+			return e.unsupportedInApp()
 		}
 		stage := "export"
 		err, panicked := e.runCached(func(ctx sdk.Context) error {
@@ -592,6 +635,9 @@ func (e *Env) dispatch(t []string) (string, []string) {
 		if n > MaxListeners {
 			return e.badOp(fmt.Errorf("listener count %d out of range", n))
 		}
+		if e.appMode {
+			return e.unsupportedInApp()
+		}
 		e.nListeners = int(n)
 		return "res ok", nil
 
@@ -607,6 +653,9 @@ func (e *Env) dispatch(t []string) (string, []string) {
 		if idx >= MaxListeners {
 			return e.badOp(fmt.Errorf("listener index %d out of range", idx))
 		}
+		if e.appMode {
+			return e.unsupportedInApp()
+		}
 		e.pendHooks[fmt.Sprintf("%s/%d", name, idx)] = true
 		return "res ok", nil
 
@@ -617,6 +666,9 @@ func (e *Env) dispatch(t []string) (string, []string) {
 		}
 		if k > 1<<30 {
 			return e.badOp(fmt.Errorf("fault index %d too large", k))
+		}
+		if e.appMode {
+			return e.unsupportedInApp()
 		}
 		e.pendFault = int(k)
 		return "res ok", nil
